@@ -169,7 +169,7 @@ def fact_true(cond, pc, facts):
     return False
 
 
-def ge1(term, pc, facts, _depth=0):
+def ge1(term, pc, facts, _depth=0, _lift=0):
     if is_const(term):
         return const_of(term) >= 1
     if isinstance(term, _A) and term.fn == "max" and any(is_const(a) and const_of(a) >= 1 for a in term.args):
@@ -185,7 +185,104 @@ def ge1(term, pc, facts, _depth=0):
             return True
         if nonneg_term(term) and known_nonzero(term, pc, facts):
             return True
+        # a choice buried in the arithmetic (`n - (n - 1 if c else e)`) is lifted: the term is `ite(c, term[a], term[b])`
+        pt = to_poly(term)
+        if pt is not None:
+            its = [a for a in pt.atoms() if isinstance(a, _A) and a.fn == "ite" and len(a.args) == 3]
+            if its and _lift < 8:
+                from ..terms import subst as _subst
+                it = its[0]
+                # a case the path already excludes needs no proof
+                known = {c_.key: t_ for c_, t_ in pc}
+                arms = []
+                for arm, truth_ in ((it.args[1], True), (it.args[2], False)):
+                    if known.get(it.args[0].key, truth_) != truth_:
+                        continue
+                    # the chosen arm replaces the choice everywhere: in the term and in what the path knows about it
+                    pc_arm = [(_subst(c_, {it: arm}) if hasattr(c_, "key") else c_, t_) for c_, t_ in list(pc) + [(it.args[0], truth_)]]
+                    if any(isinstance(c_, Const) and bool(c_.value) != bool(t_) for c_, t_ in pc_arm):
+                        continue     # the substitution makes a recorded decision impossible: infeasible case
+                    arms.append((_subst(term, {it: arm}), pc_arm))
+                return bool(arms) and all(ge1(t_, pc_, facts, _depth, _lift + 1) for t_, pc_ in arms)
     return False
+
+
+def zero_witness(cnt, pc, facts, kind):
+    """A concrete world in which the delivered count is 0 although the path is feasible: small class sizes and easy counts, every draw
+    ranging over its support (binomial(n, .) in 0..n, Poisson in 0..2), evaluated exactly on the derived terms.  Returns a description
+    of the world, None when no such world exists on the grid, or "?" when the terms cannot be evaluated."""
+    import itertools
+    from fractions import Fraction
+    from ..numeval import evaluate, CannotEvaluate, Arr
+    terms = [cnt] + [c for c, _t in pc if hasattr(c, "key")]
+    draws = {}
+
+    def note(t):
+        if isinstance(t, _A) and t.fn.startswith("rng:"):
+            draws[t.key] = t
+    for t in terms:
+        walk(t, note)
+    order = sorted(draws.values(), key=lambda a: len(a.key))       # a draw's parameters may contain other (shorter) draws
+    if len(order) > 6 or any(a.fn not in ("rng:binomial", "rng:poisson") for a in order):
+        return "?"
+    budget = [40000]
+    try:
+        for hp, hn, ep, en in itertools.product((1, 2), (1, 2), (0, 1, 2), (0, 1, 2)):
+            base = {POS: Arr(Fraction(i) for i in range(hp)), NEG: Arr(Fraction(i + 10) for i in range(hn)), EP: Fraction(ep), EN: Fraction(en)}
+
+            def rec(i, env):
+                budget[0] -= 1
+                if budget[0] < 0:
+                    raise CannotEvaluate("budget")
+                if i == len(order):
+                    e2 = dict(env)
+                    for c, t in pc:
+                        if hasattr(c, "key") and bool(evaluate(c, e2)) != bool(t):
+                            return None
+                    for f in facts:
+                        if not bool(evaluate(f, e2)):
+                            return None
+                    v = evaluate(cnt, e2)
+                    tot = sum(v) if isinstance(v, Arr) else v
+                    if tot <= 0:
+                        return "len(pos)=%d len(neg)=%d easy=(%d,%d) draws=%s" % (hp, hn, ep, en, [int(env[a]) if not isinstance(env[a], Arr) else [int(x) for x in env[a]] for a in order])
+                    return None
+                a = order[i]
+                e2 = dict(env)
+                e2.pop("__memo__", None)
+                if a.fn == "rng:binomial":
+                    n = a.kwd("n") if a.kwd("n") is not None else a.args[0]
+                    nv = evaluate(n, e2)
+                    if isinstance(nv, Arr) or nv.denominator != 1 or nv < 0 or nv > 12:
+                        raise CannotEvaluate("binomial n")
+                    support = range(0, int(nv) + 1)
+                else:
+                    support = range(0, 3)
+                size = a.kwd("size")
+                if size is not None and not (is_const(size) and const_of(size) is None):
+                    sv = evaluate(size, e2)
+                    if isinstance(sv, Arr) or sv.denominator != 1 or not (0 <= sv <= 2):
+                        raise CannotEvaluate("draw size")
+                    worlds = itertools.product(support, repeat=int(sv))
+                    mk = lambda w: Arr(Fraction(x) for x in w)
+                else:
+                    worlds = ((x,) for x in support)
+                    mk = lambda w: Fraction(w[0])
+                for w in worlds:
+                    e3 = dict(e2)
+                    e3[a] = mk(w)
+                    r = rec(i + 1, e3)
+                    if r:
+                        return r
+                return None
+            r = rec(0, base)
+            if r:
+                return r
+    except CannotEvaluate as e_:
+        return None if "budget" in str(e_) else "?"
+    except Exception:
+        return "?"
+    return None
 
 
 def delivered_count(arr):
@@ -315,9 +412,15 @@ def sample_wellformed(ctx, chk):
             if ok:
                 chk.hold("R11.5", "%s:%s>=1" % (inst, nm), "delivered %s count %s has lower bound 1" % (nm, show(cnt, 80)))
             else:
-                chk.violation("R11.5", BS, "%s:%s-at-least-one" % (label.split("[")[1].rstrip("]"), nm),
-                              "delivered count %s (%s) has lower bound 0 on path [%s]" % (show(cnt, 160), kind, pc_text(o)[-200:]),
-                              "at least one scored %s whenever the source has one" % nm, ctx.where(SI))
+                # no proof of `>= 1`: a VIOLATION needs a world (class sizes, easy counts, draws within their supports) on this path in which
+                # nothing is delivered; without one the clause is not decided (the proof search is incomplete, the code may be right)
+                wit = zero_witness(cnt, o.pc, facts, kind) if cnt is not None else "?"
+                if wit is None or wit == "?":
+                    chk.unknown("R11.5", "%s:%s: neither a proof that the delivered count %s is at least 1 nor a world in which it is 0 was found" % (label, nm, show(cnt, 120)))
+                else:
+                    chk.violation("R11.5", BS, "%s:%s-at-least-one" % (label.split("[")[1].rstrip("]"), nm),
+                                  "delivered count %s (%s) has lower bound 0 on path [%s]%s" % (show(cnt, 160), kind, pc_text(o)[-200:], "" if wit == "?" else "; e.g. " + wit),
+                                  "at least one scored %s whenever the source has one" % nm, ctx.where(SI))
             if m == "proportion":
                 want = _A("max", (Const(1), _A("trunc", (mul(Sym("ratio", ("float", "notnone")), _A("size", (src,))),))))
                 if cnt is not None and same(cnt, want) and repl == Const(False):
